@@ -159,6 +159,11 @@ func (r *c13) Exec(op []string) string {
 		if len(r.left) >= 100 {
 			r.st.Note("left>=100-lines")
 		}
+		lbNote(r.st, "pipe-left-lines", len(r.left))
+		lbNote(r.st, "pipe-chunks-before-context", len(base))
+		lbNote(r.st, "pipe-chunks-after-unify", len(d.Chunks))
+		lbNote(r.st, "pipe-context", n)
+		lbNote(r.st, "pipe-longest-line-bytes", c13longest(r.left, r.right))
 		for _, e := range d.Edits {
 			if e.Op == slice.OpReplace {
 				r.st.Note("edit-replace")
@@ -168,6 +173,16 @@ func (r *c13) Exec(op []string) string {
 		return strings.Join([]string{s0, s1, s2, in}, " | ")
 	}
 	return "bad-op"
+}
+
+func c13longest(lss ...[]string) int {
+	n := 0
+	for _, ls := range lss {
+		for _, l := range ls {
+			n = max(n, len(l))
+		}
+	}
+	return n
 }
 
 // ---- generators (shared with C14) ----
@@ -377,6 +392,12 @@ func init() {
 				}
 				g.Case(ops)
 			})
+			for _, b := range c13bigCases(g) {
+				if !g.Thorough() && c13longest(b.left) > 8193 {
+					continue // 64 KiB lines matter to the readers (C14); New/AddContext/Unify only compare lines
+				}
+				g.Each(c13bigOps(b))
+			}
 		},
 		New: func(st *Stats) Runner { return &c13{st: st} },
 	})
